@@ -98,3 +98,38 @@ Definition layout_b (bs : list iblob) (size : N) : bool :=
 Definition describes_b (bs : list iblob) (size : N) : bool :=
   contiguous_b 0 bs && nodup_ids bs && homogeneous_b bs &&
   match hdr_pack_size bs with Some s => s =? size | None => false end.
+
+(* ---- the control-flow shape of the functions the model states (returns, ifs, `?`, matches per
+   function, in the order of extract.py's PINS), as it was when the model was written.  Props.v
+   pins SOURCE_SHAPE (regenerated from the source) to it. *)
+Definition MODELLED_SHAPE : list (N * N * N * N) :=
+  [ (0, 0, 0, 0) (* packfile::from_binary#0 *);
+    (0, 0, 1, 0) (* packfile::to_binary#0 *);
+    (0, 0, 0, 1) (* packfile::from_blob#0 *);
+    (0, 0, 0, 1) (* packfile::length#0 *);
+    (0, 0, 0, 1) (* packfile::into_location#0 *);
+    (0, 0, 0, 1) (* packfile::into_blob#0 *);
+    (1, 1, 0, 1) (* packfile::from_binary#1 *);
+    (3, 4, 5, 0) (* packfile::from_file#0 *);
+    (0, 0, 0, 0) (* packfile::size#1 *);
+    (0, 0, 0, 0) (* packfile::pack_size#1 *);
+    (0, 0, 1, 0) (* packfile::to_binary#1 *);
+    (0, 1, 2, 0) (* packer::add_raw#1 *);
+    (0, 1, 2, 0) (* packer::finalize#1 *);
+    (0, 0, 4, 0) (* packer::save#0 *);
+    (0, 0, 1, 0) (* packer::write_data#0 *);
+    (1, 1, 2, 0) (* packer::add_raw#2 *);
+    (0, 0, 0, 0) (* packer::should_save#0 *);
+    (0, 0, 0, 0) (* packer::header_bytes#0 *);
+    (0, 0, 4, 0) (* packer::write_header#0 *);
+    (0, 0, 0, 0) (* packer::take_data#0 *);
+    (0, 0, 0, 0) (* packer::has#1 *);
+    (0, 0, 1, 0) (* packer::process#0 *);
+    (0, 1, 0, 0) (* packer::coalesce#0 *);
+    (0, 0, 2, 0) (* packer::copy_fast#0 *);
+    (0, 0, 3, 0) (* packer::copy#0 *);
+    (0, 0, 0, 0) (* blob::can_coalesce#0 *);
+    (0, 0, 0, 0) (* blob::append#0 *);
+    (0, 1, 0, 0) (* blob::coalesce#0 *);
+    (0, 2, 0, 1) (* repair::check_pack#0 *);
+    (0, 0, 0, 0) (* repair::into_pack_to_read#0 *) ].
